@@ -89,7 +89,7 @@ func (g *anteG) step() {
 	}
 	if r.P(1, 25) {
 		// governance changes the settlement gas prices in mid-history: later transactions pay the new price
-		g.emit("setprices %s", rng.Pick(r, []string{"setl:0.0003,uusdc:1", "setl:0.00015,uusdc:2", "setl:0.0001,uusdc:1", "setl:0.00025,uusdc:0.5"}))
+		g.emit("setprices %s", rng.Pick(r, []string{"setl:0.0003,uusdc:1", "setl:0.00015,uusdc:2", "setl:0.0001,uusdc:1", "setl:0.00025,uusdc:0.5", "uusdc:1,setl:0.0003", "uusdc:2,setl:0.0001"}))
 	}
 	switch r.Weighted([]int{8, 8, 5, 7, 3, 3, 5}) {
 	case 0:
